@@ -2045,7 +2045,10 @@ func (i *Iterator) Advance(key search.Key) bool {
 	if i.header.Namespaces[ns].TypeAndNamespace > nn {
 		i.ns = ns
 		i.i = i.header.Namespaces[i.ns].Index
-		i.value, _ = binary.Uvarint(i.ids[i.i:])
+		// Consume the id, as Next() would, so a following Next() doesn't return it again.
+		var n int
+		i.value, n = binary.Uvarint(i.ids[i.i:])
+		i.i += n
 		return true
 	}
 
